@@ -66,6 +66,28 @@ def run_impl(case, outcome):
             qs.append(Query("spec num render %s %s x False ~" % (enc_str(fmt), ratio(x)), "unsupported", "oracle",
                             "rendering raised %s for a format of the family" % expect))
         return qs
+    if op == "render-history":
+        # rendering is a function of (number, format) alone: a sequence of renderings in ONE process, mixing numbers that
+        # compare equal but print differently (0.0 / -0.0, 1 / 1.0 / True); reference for printf formats: CPython's own `%`
+        qs = []
+        for x, fmt in case["calls"]:
+            v = {"-0.0": -0.0, "True": True}.get(x, x) if isinstance(x, str) else x
+            try:
+                want = (fmt % v).strip()          # the library sends numbers without the blank padding
+            except Exception:  # noqa
+                continue
+            try:
+                got = values.num_to_str(v, fmt)
+            except Exception as e:  # noqa
+                got = "raised " + type(e).__name__
+            outcome.count("history-render")
+            if got != want:
+                qs.append(Query("spec istrue False", "True", "oracle",
+                                "num_to_str(%r, %r) = %r after earlier renderings in the same process; printf gives %r" % (v, fmt, got, want)))
+            else:
+                qs.append(Query("spec istrue True", "True", "oracle"))
+        outcome.nontrivial.add(str(case["calls"]))
+        return qs
     if op == "parse":
         s = case["s"]
         fmt = case.get("fmt", "%f")
@@ -186,6 +208,19 @@ def gen_render(rng, tier):
     for frac in SEXA:
         for v in vals:
             yield {"op": "render", "fmt": "%%.%dm" % frac, "x": hexf(v)}
+
+
+def gen_history(rng, tier):
+    """sequences of renderings in one process: numbers that are equal (and hash alike) but print differently, under the same format"""
+    fmts = ["%.2f", "%f", "%5.1f", "%+.1f", "%08.3f", "%.0f", "%d", "%4d", "%.3f"]
+    twins = [[0.0, "-0.0"], ["-0.0", 0.0], [1, 1.0, "True"], [1.0, 1], [0, "-0.0", 0.0], [-1, -1.0], [100.0, 100], [2.5, 2.5]]
+    for fmt in fmts:
+        for tw in twins:
+            yield {"op": "render-history", "calls": [[x, fmt] for x in tw]}
+    n = 200 if tier == "thorough" else 30
+    pool = [0.0, "-0.0", 0, 1, 1.0, -1.0, 12.5, 1e9, -0.001, 0.001, 359.99999]
+    for _ in range(n):
+        yield {"op": "render-history", "calls": [[rng.choice(pool), rng.choice(fmts)] for _ in range(rng.randint(2, 12))]}
 
 
 def grammar_strings(rng, n):
